@@ -440,12 +440,19 @@ func checkTokenBarrier(c *Check, p *Prog, name string, d *wfDesc, s int64) {
 		}
 	}
 	// other uses of the channel: go args, the deferred close, recv in worker
+	nClose := 0
 	others := events(sum.Top, func(e *Event) bool {
 		if e == send || e == d.GoEv || e.Kind == "alloc" {
 			return false
 		}
 		if e.Kind == "defer" && e.Callee == "builtin:close" {
-			return false
+			nClose++
+			return nClose > 1
+		}
+		// the same close written out after the dispatch loop (all tokens are sent by then)
+		if e.Kind == "call" && e.Callee == "builtin:close" && e.Loop == nil && send != nil && e.Seq > send.Seq && len(e.Args) == 1 && e.Args[0] == d.Jobs {
+			nClose++
+			return nClose > 1
 		}
 		return eventMentions(e, d.Jobs)
 	})
